@@ -897,7 +897,7 @@ class Summary(object):
             return
         for c in _calls_outer_first(expr):
             nm = P.call_name(c)
-            if nm in _BUILTINS or (isinstance(c.func, ast.Attribute) and isinstance(c.func.value, ast.Constant)):
+            if (nm in _BUILTINS and nm != 'setattr') or (isinstance(c.func, ast.Attribute) and isinstance(c.func.value, ast.Constant)):
                 continue
             if nm is None:
                 nm = _unparse(c.func)
@@ -905,6 +905,13 @@ class Summary(object):
             for g, n in self.alts(c, env, conj(pc, g0)):
                 if not isinstance(n, ast.Call):
                     continue
+                if nm == 'setattr' and len(n.args) == 3:
+                    # setattr(obj, 'name', v) with a constant name is the store obj.name = v
+                    ok, attr = self.fold(n.args[1], fr)
+                    if ok and isinstance(attr, str):
+                        tn = ast.Attribute(value=n.args[0], attr=attr, ctx=ast.Store())
+                        self.emit('store', _unparse(tn), _unparse(n.args[2]), conj(pc, g0, g), c, fr, vnode=n.args[2])
+                        continue
                 e = self.emit('call', _unparse(n.func), _unparse(n), conj(pc, g0, g), c, fr, vnode=n, args=[_unparse(a) for a in n.args])
                 if e is not None:
                     e.kwargs = dict((k.arg, _unparse(k.value)) for k in n.keywords if k.arg)
